@@ -4,7 +4,8 @@ import VpnCloud.Proofs.C16
 /-
   C15 at node level, continued: the announcement `housekeep` schedules is safe for every configuration, the announcement
   reaches every peer, node information / keepalives (and nothing else) refresh the expiry of a peer, a timed argument for
-  one direction sender → receiver (a healthy peer never expires; a silent one is removed one second after its expiry),
+  one direction sender → receiver (a healthy peer never expires — also one that joined after the sender's last scheduling, since
+  `add_new_peer` makes the next announcement due at once; a silent one is removed one second after its expiry),
   and the reconnect list is retried forever.
 -/
 namespace VpnCloud.Proofs.C15More
@@ -382,13 +383,49 @@ theorem advertised_above_own_expires :
     (run 10 (fun _ => 90) (List.replicate 12 false) { t := 0, next := 1, expiry := 10 }).2 = true := by
   refine ⟨fun _ => Or.inr (by show (90 : Nat) < 300; omega), by unfold TInv; decide, by decide⟩
 
-/-- the second disjunct of the invariant is needed, and is NOT established by the handshake: S's first announcement after the
-    handshake is whatever was scheduled before (`add_new_peer` does not touch `next_peers`).  If that is later than R's expiry
-    (here: S scheduled 90 s ahead while it had no peers, R applies `T = 30`), R removes the healthy S once. -/
-theorem late_first_announcement_expires :
-    SafeDelays 30 (fun _ => 1) ∧
+/-- the second disjunct of the invariant is needed: a state in which S's next announcement is later than R's expiry (here: S scheduled
+    90 s ahead, R applies `T = 30`) is followed by a removal of the healthy S.  Before the fix of `add_new_peer` such a state arose after
+    every handshake with a peer whose timeout is shorter than S's pending interval; now `join` below describes the handshake. -/
+theorem second_disjunct_needed :
+    SafeDelays 30 (fun _ => 1) ∧ ¬ TInv { t := 0, next := 90, expiry := 30 } ∧
     (run 30 (fun _ => 1) (List.replicate 31 false) { t := 0, next := 90, expiry := 30 }).2 = true := by
-  refine ⟨fun _ => Or.inl (Nat.le_refl _), by decide⟩
+  refine ⟨fun _ => Or.inl (Nat.le_refl _), by unfold TInv; decide, by decide⟩
+
+/-- the handshake in the timed system, completed at both ends in the second `s.t`: R stores S with expiry `t + T`
+    (`handshake_sets_expiry`) and S pulls its pending announcement forward to `t` (`add_new_peer`: `next_peers = min(next_peers, now)`,
+    `new_peer_announced_next_tick`) — whatever S had scheduled before, and whatever R's expiry was -/
+def join (T : Nat) (s : TState) : TState := { s with next := min s.next s.t, expiry := s.t + T }
+
+/-- the handshake establishes the invariant, with NO hypothesis on what S had scheduled before it -/
+theorem tinv_after_join (T : Nat) (hT : 1 ≤ T) (s : TState) : TInv (join T s) := by
+  unfold TInv join
+  simp only []
+  omega
+
+/-- **joined_peer_never_expires**: a peer that joins at any moment — in particular after the sender's last scheduling, with an
+    arbitrary pending `next` — is never found expired by the receiver afterwards.  Remaining timing assumptions: both ends complete the
+    handshake in the same second (`join`), housekeeping runs every second at both ends (in either order) and an announcement that is
+    sent arrives within the second (`tick`), the receiver's own timeout is at least one second (`hT`) and it advertises at most its own
+    timeout (`hadv`), and the delays S chooses after the handshake are the ones of `housekeep_schedules_safe` for a peer list that
+    contains R (`hd`; by `new_peer_announced_next_tick` the first of them is chosen at S's next tick, with R on the list). -/
+theorem joined_peer_never_expires (T Tadv : Nat) (d : Int → Nat) (hT : 1 ≤ T) (hadv : Tadv ≤ T) (hd : SafeDelays Tadv d)
+    (order : List Bool) (s : TState) : (run T d order (join T s)).2 = false ∧ TInv (run T d order (join T s)).1 :=
+  healthy_never_expires T Tadv d hT hadv hd order (join T s) (tinv_after_join T hT s)
+
+/-- the first announcement after the handshake goes out in S's next housekeeping, one second later at the latest, and R's expiry is
+    then renewed — for every pending `next` -/
+theorem join_announces_next_tick (T : Nat) (d : Int → Nat) (b : Bool) (s : TState) :
+    (tick T d b (join T s)).1.expiry = s.t + 1 + T ∧ (tick T d b (join T s)).1.next = s.t + 1 + d (s.t + 1) := by
+  have hdue : Generated.announceDue (min s.next s.t) (s.t + 1) = true := by
+    simp only [Generated.announceDue, decide_eq_true_eq]; omega
+  unfold tick sHousekeep join
+  cases b <;> simp only [hdue, if_true, Bool.false_eq_true, if_false, and_self]
+
+/-- non-vacuity, on the state of `second_disjunct_needed`: S had scheduled 90 s ahead and R applies `T = 30`; after the handshake
+    (`join`) the same 31 seconds pass without a removal -/
+example : SafeDelays 30 (fun _ => 1) ∧ join 30 { t := 0, next := 90, expiry := 0 } = { t := 0, next := 0, expiry := 30 } ∧
+    (run 30 (fun _ => 1) (List.replicate 31 false) (join 30 { t := 0, next := 90, expiry := 0 })).2 = false :=
+  ⟨fun _ => Or.inl (Nat.le_refl _), by decide, by decide⟩
 
 /-! ### the converse: a silent sender -/
 
@@ -495,13 +532,84 @@ theorem handshake_sets_expiry (env : CryptoEnv) (o : Oracle) (c : Ctx) (now : In
       p.peerTimeout = info.peerTimeout.getD Generated.DEFAULT_PEER_TIMEOUT ∧ p.crypto = pc ∧ p.nodeId = info.nodeId :=
   addNewPeer_peer env o c now a info pc hp
 
-/-- … but NOT the second half at S: neither `add_new_peer` nor any other reaction to a datagram touches `next_peers`; the first
-    announcement to a new peer goes out when the one scheduled before the handshake is due (see `late_first_announcement_expires`) -/
-theorem handshake_keeps_schedule (env : CryptoEnv) (bodyOf : Init.BodyOf) (o : Oracle) (n : Node) (now : Int) (src : NAddr) (data tail : Bytes) :
-    (handleNet env bodyOf o n now src data tail).1.node.nextPeers = n.nextPeers :=
-  handleNet_nextPeers env bodyOf o n now src data tail
+/-- … and the second half at S: `add_new_peer` (with a pending handshake object) makes the next announcement due at once,
+    `next_peers = min(next_peers, now)` -/
+theorem handshake_pulls_schedule (env : CryptoEnv) (o : Oracle) (c : Ctx) (now : Int) (a : NAddr) (info : NodeInfo) (pc : PeerCrypto)
+    (hp : lookupA c.node.pending a = some pc) :
+    (addNewPeer env o c now a info).node.nextPeers = min c.node.nextPeers now ∧ (addNewPeer env o c now a info).node.nextPeers ≤ now := by
+  rw [addNewPeer_nextPeers env o c now a info pc hp]
+  exact ⟨rfl, Int.min_le_right _ _⟩
 
-/-- so the invariant holds right after the handshake iff S's pending announcement is not later than R's new expiry (or due within a second) -/
+/-- **handshake_schedule** (formerly `handshake_keeps_schedule`, which said that no datagram touches `next_peers`): a datagram either
+    leaves the announcement schedule alone — and then adds no address to the peer list —, or (a completed handshake) lowers it to
+    `min next_peers now` — and then its sender is a peer afterwards.  Nothing else happens to `next_peers` in `handle_net_message`. -/
+theorem handshake_schedule (env : CryptoEnv) (bodyOf : Init.BodyOf) (o : Oracle) (n : Node) (now : Int) (src : NAddr) (data tail : Bytes) :
+    ((handleNet env bodyOf o n now src data tail).1.node.nextPeers = n.nextPeers ∧
+      ∀ b, b ∈ (handleNet env bodyOf o n now src data tail).1.node.peers.map (·.1) → b ∈ n.peers.map (·.1)) ∨
+    ((handleNet env bodyOf o n now src data tail).1.node.nextPeers = min n.nextPeers now ∧
+      mappedAddr src ∈ (handleNet env bodyOf o n now src data tail).1.node.peers.map (·.1)) :=
+  handleNet_schedStep env bodyOf o n now src data tail
+
+/-- in particular the schedule is never pushed back by a datagram -/
+theorem datagram_never_delays_schedule (env : CryptoEnv) (bodyOf : Init.BodyOf) (o : Oracle) (n : Node) (now : Int) (src : NAddr) (data tail : Bytes) :
+    (handleNet env bodyOf o n now src data tail).1.node.nextPeers ≤ n.nextPeers := by
+  rcases handshake_schedule env bodyOf o n now src data tail with ⟨h, _⟩ | ⟨h, _⟩
+  · rw [h]; exact Int.le_refl _
+  · rw [h]; exact Int.min_le_left _ _
+
+/-- every datagram that is not a handshake datagram (first byte other than `0xff`: data, node information, keepalive, close, rotation,
+    garbage) leaves the announcement schedule unchanged -/
+theorem plain_datagram_keeps_schedule (env : CryptoEnv) (bodyOf : Init.BodyOf) (o : Oracle) (n : Node) (now : Int) (src : NAddr) (data tail : Bytes)
+    (hplain : data.head? ≠ some Generated.INIT_MESSAGE_FIRST_BYTE) :
+    (handleNet env bodyOf o n now src data tail).1.node.nextPeers = n.nextPeers :=
+  handleNet_nextPeers_plain env bodyOf o n now src data tail hplain
+
+/-- **new_peer_announced_next_tick**: if handling a datagram at time `now` adds the peer `a` (not a peer before, a peer after), then `a`
+    is the sender, the announcement is due afterwards (`next_peers ≤ now`), and therefore the next housekeeping tick — at any time
+    `t ≥ now`, as long as no other tick came first — (1) schedules the following announcement `d` seconds ahead with `d ≤ 1` or `d`
+    strictly below the timeout advertised by every peer left after the tick, `a` included (the interval is computed from the peer list
+    that contains `a`, `C15.interval_safe`), and (2) sends the node information to every peer left after the tick whose session can
+    seal, `a` included (for pairwise distinct peer addresses). -/
+theorem new_peer_announced_next_tick (env : CryptoEnv) (bodyOf : Init.BodyOf) (o : Oracle) (n : Node) (now : Int) (src : NAddr)
+    (data tail : Bytes) (a : NAddr) (hbefore : a ∉ n.peers.map (·.1))
+    (hafter : a ∈ (handleNet env bodyOf o n now src data tail).1.node.peers.map (·.1)) :
+    a = mappedAddr src ∧ (handleNet env bodyOf o n now src data tail).1.node.nextPeers ≤ now ∧
+    ∀ (o' : Oracle) (t : Int), now ≤ t →
+      (∃ d : Nat, (housekeep env o' (handleNet env bodyOf o n now src data tail).1.node t).node.nextPeers = t + d ∧
+        (d ≤ 1 ∨ ∀ b p, (b, p) ∈ (housekeep env o' (handleNet env bodyOf o n now src data tail).1.node t).node.peers → d < p.peerTimeout)) ∧
+      (((handleNet env bodyOf o n now src data tail).1.node.peers.map (·.1)).Nodup →
+        ∀ b p, (b, p) ∈ (housekeep env o' (handleNet env bodyOf o n now src data tail).1.node t).node.peers → canSeal p.crypto →
+          ∃ p3, lookupA (preAnnounce env o' (handleNet env bodyOf o n now src data tail).1.node t).node.peers b = some p3 ∧
+            Sent Generated.MESSAGE_TYPE_NODE_INFO
+              (Codec.encodeNodeInfo (createNodeInfo (preAnnounce env o' (handleNet env bodyOf o n now src data tail).1.node t).node)) b p3 p
+              (housekeep env o' (handleNet env bodyOf o n now src data tail).1.node t).outs
+              (housekeep env o' (handleNet env bodyOf o n now src data tail).1.node t).log) := by
+  have hsrc : a = mappedAddr src := by
+    rcases handleNet_keysSub env bodyOf o n now src data tail a hafter with h | h
+    · exact absurd h hbefore
+    · exact h
+  have hdue : (handleNet env bodyOf o n now src data tail).1.node.nextPeers ≤ now := by
+    rcases handshake_schedule env bodyOf o n now src data tail with ⟨_, h⟩ | ⟨h, _⟩
+    · exact absurd (h a hafter) hbefore
+    · rw [h]; exact Int.min_le_right _ _
+  refine ⟨hsrc, hdue, fun o' t ht => ⟨?_, fun hnd b p hmem hseal => ?_⟩⟩
+  · exact housekeep_schedules_safe env o' _ t (Int.le_trans hdue ht)
+  · exact announce_reaches_every_peer env o' _ t (Int.le_trans hdue ht) hnd b p hmem hseal
+
+/-- the delay chosen at that tick, for the new peer itself, in the form the timed argument uses (`SafeDelays`) -/
+theorem new_peer_delay_safe (env : CryptoEnv) (bodyOf : Init.BodyOf) (o : Oracle) (n : Node) (now : Int) (src : NAddr)
+    (data tail : Bytes) (a : NAddr) (hbefore : a ∉ n.peers.map (·.1))
+    (hafter : a ∈ (handleNet env bodyOf o n now src data tail).1.node.peers.map (·.1))
+    (o' : Oracle) (t : Int) (ht : now ≤ t) (p : Peer)
+    (hmem : (a, p) ∈ (housekeep env o' (handleNet env bodyOf o n now src data tail).1.node t).node.peers) :
+    t ≤ (housekeep env o' (handleNet env bodyOf o n now src data tail).1.node t).node.nextPeers ∧
+    ((housekeep env o' (handleNet env bodyOf o n now src data tail).1.node t).node.nextPeers - t ≤ 1 ∨
+     (housekeep env o' (handleNet env bodyOf o n now src data tail).1.node t).node.nextPeers - t < p.peerTimeout) :=
+  housekeep_delay_safe_for_peer env o' _ t
+    (Int.le_trans (new_peer_announced_next_tick env bodyOf o n now src data tail a hbefore hafter).2.1 ht) a p hmem
+
+/-- the invariant holds right after R stored S iff S's pending announcement is not later than R's new expiry (or due within a second);
+    since S's `add_new_peer` makes it due at once this is always the case (`tinv_after_join`) -/
 theorem tinv_after_handshake (T : Nat) (hT : 1 ≤ T) (t next : Int) :
     TInv { t := t, next := next, expiry := t + T } ↔ (next ≤ t + 1 ∨ next ≤ t + T) := by
   unfold TInv
@@ -707,11 +815,39 @@ example : (housekeep Toy.env o0 { nA with reconnect := [{ resolved := [s2], next
       { resolved := [s2, .v6 (List.replicate 16 0) 4], next := 90 }] } 100).outs.map
       (fun x => match x with | .dgram d _ => some d | .iface _ => none) = [some s1, some s2] := by decide
 
-/-- the situation of `late_first_announcement_expires` at node level: a node without peers and with the default keepalive
-    (`update_freq = 90` for `peer_timeout = 300`) schedules its next announcement 90 s ahead (`min 90 (max (300 / 2 - 60) 1)`);
-    a peer that joins one second later and applies a timeout of 30 s hears nothing for 89 s (`handshake_keeps_schedule`) -/
+/-- the situation that made a healthy node expire before the fix, at node level: a node without peers and with the default keepalive
+    (`update_freq = 90` for `peer_timeout = 300`) schedules its next announcement 90 s ahead (`min 90 (max (300 / 2 - 60) 1)`) … -/
 example : (housekeep Toy.env o0 { nA with peers := [], reconnect := [], nextPeers := 0, cfg := { cfg0 with updateFreq := 90 } } 0).node.nextPeers = 90 := by
   decide
+
+/-! `new_peer_announced_next_tick`: a node with one established peer `s1`, a pending handshake with `s2` and the next announcement
+    scheduled for second 5000 receives, at second 100, the genuine pong of `s2`, which advertises a timeout of 30 s -/
+private def cfgH : NodeCfg := { cfg0 with trusted := [[9, 9, 9, 9], [7, 7, 7, 7]], algos := Toy.algosPlain }
+private def istH : InitSt := { Toy.st with nodeId := List.replicate 16 9, trusted := cfgH.trusted, algos := Toy.algosPlain }
+private def nH : Node :=
+  { nodeId := List.replicate 16 9, addr := .v6 (List.replicate 16 0) 3, cfg := cfgH, table := { cacheTimeout := 300, claimTimeout := 300 },
+    peers := [(s1, p1)], pending := [(s2, { init := some istH })], nextPeers := 5000 }
+private def infoH : NodeInfo := { nodeId := List.replicate 16 2, peers := [], claims := [], peerTimeout := some 30, addrs := [] }
+private def pongH : Bytes :=
+  Generated.INIT_MESSAGE_FIRST_BYTE ::
+    InitMsg.writeTo (.pong (List.replicate 20 2) [6] Toy.algosPlain (Codec.encodeNodeInfo infoH)) [0, 0, 0, 1] [9, 9, 9, 9] [9, 9, 0, 0]
+private def nH' : Node := (handleNet Toy.env (Toy.body 0) o0 nH 100 s2 pongH []).1.node
+
+/-- the hypotheses hold (`s2` is not a peer before and is one after), the schedule drops from 5000 to 100, the new record has the
+    expiry `100 + 300` and the advertised timeout 30 … -/
+example : s2 ∉ nH.peers.map (·.1) ∧ s2 ∈ nH'.peers.map (·.1) ∧ nH.nextPeers = 5000 ∧ nH'.nextPeers = 100 ∧
+    (nH'.peers.map (·.1)).Nodup ∧ (lookupA nH'.peers s2).map (fun p => (p.timeout, p.peerTimeout)) = some (400, 30) := by
+  decide +kernel
+
+/-- … and the tick of second 100 announces to both peers and schedules the next announcement one second ahead
+    (`min 10 (max (30 / 2 - 60) 1) = 1`, computed with the timeout of the new peer) -/
+example : (housekeep Toy.env o0 nH' 100).node.nextPeers = 101 ∧
+    (housekeep Toy.env o0 nH' 100).outs.map (fun x => match x with | .dgram d b => (some d, b.head?) | .iface _ => (none, none)) =
+      [(some s1, some Generated.MESSAGE_TYPE_NODE_INFO), (some s2, some Generated.MESSAGE_TYPE_NODE_INFO)] := by
+  decide +kernel
+
+/-- `handshake_pulls_schedule`: the context of `handshake_sets_expiry` above; `plain_datagram_keeps_schedule`: the keepalive `[2]` -/
+example : ([2] : Bytes).head? ≠ some Generated.INIT_MESSAGE_FIRST_BYTE := by decide
 
 end Examples
 end VpnCloud.Proofs.C15More
